@@ -270,7 +270,8 @@ func body(s *simrt.Sim, tier string) {
 					// the wall clock steps while the scheduler is at rest (parked on its timer, every job it started already running or done)
 					if ep := running(); ep != nil {
 						if !s.WaitUntil("rest", time.Minute, func() bool {
-							return s.PredBlockedIn("", "Cron.run") && s.PredLiveCount("Cron.startJob") == jobsRunning
+							// (no names of kit functions: the scheduler goroutine plus one goroutine per running job are all that is alive)
+							return s.PredKitQuiescent() && s.PredLiveCount("") == jobsRunning+1
 						}) {
 							continue
 						}
